@@ -84,7 +84,46 @@ def rule_reset(ck, rid="C14.R4"):
     ck.require(ok, rid, e, rs[0][1] if rs else "self._battery.reset()", ok="battery reset too", bad="EV.reset must reset its battery", sink="ev-reset-battery")
 
 
+def rule_breakpoint(ck, rid="C14.R5"):
+    """the region test of the two-stage closed form and the formulas it guards use the same breakpoint (the pilot-adjusted
+    transition state of charge): a piecewise solution whose test and pieces disagree on the breakpoint is not a solution of the law."""
+    repo = ck.repo
+    f = repo.fn("Linear2StageBattery._charge")
+    fl = flow_of(f)
+    cfg = fl.cfg
+
+    def trans_syms(e):
+        out = set()
+        for x in ast.walk(e):
+            d = dotted(x)
+            if d and "transition_soc" in d.split(".")[-1] and isinstance(x, (ast.Name, ast.Attribute)):
+                out.add(d)
+        return out
+    tests = [n for n in cfg.nodes if n.kind == "test" and any(dotted(x) in ("self._soc", "self.soc") for x in ast.walk(n.expr)) and trans_syms(n.expr)]
+    ck.floor(rid, len(tests), 1, "region tests comparing the state of charge with a transition point in _charge")
+    for t in tests:
+        own = trans_syms(t.expr)
+        inside = set()
+        for e in [s for s in t.succ if s.kind == "edge"]:
+            for n in cfg.nodes:
+                if cfg.dominates(e, n):
+                    for x in cfg.node_exprs(n):
+                        inside |= trans_syms(x)
+        ck.require(len(own) == 1 and inside <= own, rid, f, t.expr, ok=f"test and guarded formulas agree on the breakpoint {sorted(own)}",
+                   bad=f"the region test uses {sorted(own)} as breakpoint but the formulas it guards use {sorted(inside - own)}: pilots below the maximum are "
+                       f"charged with the wrong branch of the law between the two values", sink="breakpoint:agree")
+    # the pilot-adjusted breakpoint is derived from the nominal one, the pilot and the maximum rate of change
+    defs = [n for n in cfg.nodes if n.kind == "stmt" and isinstance(n.stmt, ast.Assign) and any(dotted(t) == "pilot_transition_soc" for t in n.stmt.targets)]
+    for n in defs:
+        from ..flow import leaves
+        lv = leaves(fl.expand(n.stmt.value, n), calls=False)
+        need = {"self._transition_soc", "pilot", "self._max_power"}
+        ck.require(need <= lv, rid, f, n.stmt, ok="adjusted breakpoint depends on the nominal breakpoint, the pilot and the maximum power",
+                   bad=f"the pilot-adjusted breakpoint does not depend on {sorted(need - lv)}", sink="breakpoint:definition")
+
+
 def run(ck):
+    rule_breakpoint(ck)
     rule_ideal(ck, rid="C14.R1")
     rule_units(ck)
     rule_zero_pilot(ck)
